@@ -17,3 +17,4 @@ import TFV.Properties.Src.MetricAccuracy
 #print axioms TFV.SrcTie.C19_src_precision_inadmissible
 #print axioms TFV.SrcTie.C19_src_accuracy
 #print axioms TFV.SrcTie.C19_src_accuracy_rejects
+#print axioms TFV.SrcTie.C19_src_mse
